@@ -85,6 +85,9 @@ pub fn run(ctx: &Ctx) -> i32 {
 
     // character level (names are not pre-tokenised): includes a multi-byte character and a tab
     let chars = ["a", "c", "p", "_", "é", "=", "+", "e", " ", ",", "\t", "A", "\u{b}", "\u{a0}", "\u{2003}", "\u{85}"];
+    // 'all' spelled with characters that only Unicode case mapping turns into its letters: none exist for a/l, but the
+    // clause grammar is exercised with such characters in flag and operator positions too
+    let lookalikes = ["\u{17f}", "\u{131}", "\u{212a}", "\u{130}", "\u{df}", "\u{ff45}", "\u{ff1d}"];
     let cl = if ctx.thorough() { 7 } else { 5 };
     let nc = strings_count(chars.len(), cl);
     let cacc = merge(par_fold(nc, Acc::new, |i, acc| {
@@ -115,6 +118,11 @@ pub fn run(ctx: &Ctx) -> i32 {
             }
         }
     }
+    for l in lookalikes {
+        for text in [format!("cap_chown={}", l), format!("cap_chown{}p", l), format!("{}=p", l), format!("al{}=p", l), format!("cap_{}=p", l), format!("cap_kill,cap_{}etuid=p", l), format!("={}", l)] {
+            check_text(&text, 1 << 51, &mut cacc);
+        }
+    }
     let s1b = SubReport::new("characters", "A", &format!("every string of ≤ {} characters over {:?} ({} strings), plus clause pieces of length 3…1024 (every power of two ± 2) ending in a 2-, 3- or 4-byte character in each clause position: same entry points and oracle", cl, chars, nc), cacc);
 
     // every known capability name, in three spellings, in each position of a text; and its near misses
@@ -123,7 +131,20 @@ pub fn run(ctx: &Ctx) -> i32 {
         let mut idx = 0u64;
         for name in vlib::capsref::CAP_NAMES {
             let mixed: String = name.chars().enumerate().map(|(i, c)| if i % 2 == 0 { c.to_ascii_uppercase() } else { c }).collect();
-            let misses = [name[..name.len() - 1].to_string(), format!("{}x", name), name[4..].to_string(), format!("{}_", name), name.replace('_', "-")];
+            // near misses, incl. spellings with characters whose Unicode case mapping is an ASCII letter (long s, dotless i, Kelvin sign, sharp s)
+            let mut misses = vec![name[..name.len() - 1].to_string(), format!("{}x", name), name[4..].to_string(), format!("{}_", name), name.replace('_', "-")];
+            for (ascii, look) in [('s', "\u{17f}"), ('i', "\u{131}"), ('k', "\u{212a}"), ('S', "\u{17f}"), ('I', "\u{130}")] {
+                for base in [name.to_string(), name.to_ascii_uppercase()] {
+                    if let Some(pos) = base.rfind(ascii) {
+                        let mut v = base.clone();
+                        v.replace_range(pos..pos + 1, look);
+                        misses.push(v);
+                    }
+                }
+            }
+            if name.contains("ss") {
+                misses.push(name.replacen("ss", "\u{df}", 1));
+            }
             for n in [name.to_string(), name.to_ascii_uppercase(), mixed].iter().chain(misses.iter()) {
                 for text in [format!("{}=ep", n), format!("{},cap_chown+p", n), format!("cap_chown,{}=i", n), format!("=e {}+p", n), format!("{0},{0}-e", n), format!(" {}=", n)] {
                     check_text_in("names", &text, idx, &mut nacc);
@@ -132,7 +153,7 @@ pub fn run(ctx: &Ctx) -> i32 {
             }
         }
     }
-    let s1c = SubReport::new("names", "A", "each of the 41 Linux capability names in lower, upper and mixed case, and five near misses of each (last character dropped, one appended, 'cap_' removed, trailing '_', '-' for '_'), in six positions of a text (alone, first / last of a list, second clause, repeated, after a blank): same entry points and oracle", nacc);
+    let s1c = SubReport::new("names", "A", "each of the 41 Linux capability names in lower, upper and mixed case, and its near misses (last character dropped, one appended, 'cap_' removed, trailing '_', '-' for '_', and letters replaced by characters whose Unicode case mapping is that letter: long s, dotless i, Kelvin sign, dotted capital I, sharp s), in six positions of a text (alone, first / last of a list, second clause, repeated, after a blank): same entry points and oracle", nacc);
 
     // FileOptions::caps must judge the text alone: not the setters called before or after it
     let mut oacc = Acc::new();
